@@ -75,12 +75,7 @@ func NewDict(allowDupKeys bool, entries ...DictEntryTuple) (Set, error) {
 			if !allowDupKeys {
 				return nil, errors.Errorf("duplicate key: %v", entry.at)
 			}
-			switch v := v.(type) {
-			case multipleValues:
-				mb.Put(entry.at, multipleValues(frozen.Set[Value](v).With(entry.value)))
-			default:
-				mb.Put(entry.at, newMultipleValues(v.(Value), entry.value))
-			}
+			mb.Put(entry.at, dictValueWith(v, entry.value))
 		} else {
 			mb.Put(entry.at, entry.value)
 		}
@@ -108,11 +103,7 @@ func (d Dict) Equal(v Value) bool {
 		match := DictTupleMatcher()
 		for e := v.Enumerator(); e.MoveNext(); {
 			if key, value, matches := match(e.Current()); matches {
-				if dvalue, has := d.m.Get(key); has {
-					if dv, ok := dvalue.(Value); !ok || !value.Equal(dv) {
-						return false
-					}
-				} else {
+				if dvalue, has := d.m.Get(key); !has || !dictValueHas(dvalue, value) {
 					return false
 				}
 			} else {
@@ -274,15 +265,41 @@ func (Dict) getBucket() fmt.Stringer {
 }
 
 func (d Dict) Count() int {
-	return d.m.Count()
+	n := d.m.Count()
+	for i := d.m.Range(); i.Next(); {
+		if mv, is := i.Value().(multipleValues); is {
+			n += frozen.Set[Value](mv).Count() - 1
+		}
+	}
+	return n
+}
+
+// dictValueWith adds value to the value(s) stored under a key; a value already there changes nothing.
+func dictValueWith(stored any, value Value) any {
+	if dictValueHas(stored, value) {
+		return stored
+	}
+	if mv, is := stored.(multipleValues); is {
+		return multipleValues(frozen.Set[Value](mv).With(value))
+	}
+	return newMultipleValues(stored.(Value), value)
+}
+
+// dictValueHas reports whether value is (one of) the value(s) stored under a key.
+func dictValueHas(stored any, value Value) bool {
+	switch stored := stored.(type) {
+	case multipleValues:
+		return frozen.Set[Value](stored).Has(value)
+	case Value:
+		return value.Equal(stored)
+	}
+	return false
 }
 
 func (d Dict) Has(v Value) bool {
 	if key, value, matched := DictTupleMatcher()(v); matched {
 		if v, has := d.m.Get(key); has {
-			if dv, ok := v.(Value); ok {
-				return value.Equal(dv)
-			}
+			return dictValueHas(v, value)
 		}
 	}
 	return false
@@ -295,12 +312,7 @@ func (d Dict) Enumerator() ValueEnumerator {
 func (d Dict) With(v Value) Set {
 	if t, is := v.(DictEntryTuple); is {
 		if u, has := d.m.Get(t.at); has {
-			switch u := u.(type) {
-			case multipleValues:
-				return Dict{m: d.m.With(t.at, multipleValues(frozen.Set[Value](u).With(t.value)))}
-			default:
-				return Dict{m: d.m.With(t.at, newMultipleValues(u.(Value), t.value))}
-			}
+			return Dict{m: d.m.With(t.at, dictValueWith(u, t.value))}
 		}
 		return Dict{m: d.m.With(t.at, t.value)}
 	}
@@ -310,12 +322,23 @@ func (d Dict) With(v Value) Set {
 func (d Dict) Without(v Value) Set {
 	if key, value, matched := DictTupleMatcher()(v); matched {
 		if v, has := d.m.Get(key); has {
-			if dv, ok := v.(Value); ok && value.Equal(dv) {
-				m := d.m.Without(key)
-				if m.IsEmpty() {
-					return None
+			switch dv := v.(type) {
+			case multipleValues:
+				rest := frozen.Set[Value](dv).Without(value)
+				if rest.Count() == 1 {
+					return Dict{m: d.m.With(key, rest.Any())}
 				}
-				return Dict{m: m}
+				if rest.Count() > 1 {
+					return Dict{m: d.m.With(key, multipleValues(rest))}
+				}
+			case Value:
+				if value.Equal(dv) {
+					m := d.m.Without(key)
+					if m.IsEmpty() {
+						return None
+					}
+					return Dict{m: m}
+				}
 			}
 		}
 	}
@@ -335,7 +358,7 @@ func (d Dict) Map(f func(v Value) (Value, error)) (Set, error) {
 }
 
 func (d Dict) Where(p func(v Value) (bool, error)) (Set, error) {
-	var mb frozen.MapBuilder[Value, any]
+	var entries []DictEntryTuple
 	for e := d.Enumerator(); e.MoveNext(); {
 		t := e.Current().(DictEntryTuple)
 		match, err := p(t)
@@ -343,14 +366,10 @@ func (d Dict) Where(p func(v Value) (bool, error)) (Set, error) {
 			return nil, err
 		}
 		if match {
-			mb.Put(t.at, t.value)
+			entries = append(entries, t)
 		}
 	}
-	m := mb.Finish()
-	if m.IsEmpty() {
-		return None, nil
-	}
-	return Dict{m: m}, nil
+	return NewDict(true, entries...)
 }
 
 func (d Dict) CallAll(_ context.Context, arg Value, b SetBuilder) error {
